@@ -52,7 +52,8 @@ class C14(Check):
             'with unusual case mappings), mixed case, leading slash variants, "." ".." and "//" segments; MemoryFS and OSFS (temp dir) '
             'back-ends; access through the ID1 view and through nested opendir views, with open() and with openbin(), re-read through the canonical and through the same spelling; write/seek/read histories; raw '
             'backing bytes compared with the ECB-keystream encryption under the independently derived counter; the '
-            'pure sd_path_to_iv function also with backslash separators; non-trivial = always')
+            'pure sd_path_to_iv function also with backslash separators; which key the card is opened with (sd_key / sd_key_file / pre-keyed engine) '
+            'against the model\'s rootKey; on real directories also the older pyctr.type.sd.SDFilesystem with every spelling of the leading separators; non-trivial = always')
     trusted_base = [
         'Lean 4.33 kernel; axioms propext, Classical.choice, Quot.sound only',
         'str.lower is a parameter (ASCII in the executable model; monitor uses Python\'s own lower, generation uses cased ASCII only)',
